@@ -56,12 +56,12 @@ def gen_cases(chk: Check):
     for order in range(0, 5):
         fmts = all_formats(order)
         if order == 4:
-            fmts = rng.sample(fmts, 60 if thorough else 12)
+            fmts = rng.sample(fmts, 60 if thorough else 24)
         dim_choices = [0, 1, 2, 3] if (thorough and order <= 2) else [0, 1, 2]
         all_dims = list(itertools.product(dim_choices, repeat=order))
         for modes, ordering in fmts:
             if order >= 3 and not thorough:
-                dims_list = rng.sample(all_dims, 3)
+                dims_list = rng.sample(all_dims, 8)
             elif order == 4:
                 dims_list = rng.sample(all_dims, 4)
             else:
@@ -74,7 +74,7 @@ def gen_cases(chk: Check):
                         [universe[i] for i in range(n) if (mask >> i) & 1] for mask in range(1 << n)
                     ]
                 else:
-                    k = 6 if thorough else 2
+                    k = 6 if thorough else 3
                     subsets = [[]] + [
                         [c for c in universe if rng.random() < p] for p in (0.2, 0.5, 0.9) for _ in range(k)
                     ][: (3 * k)]
